@@ -330,12 +330,56 @@ def rule_resolution_not_memoised(ctx, rep, rule_id="R-RESOLUTION-NOT-MEMOISED"):
 
 
 CHILD_ATTRS = {"elements", "args", "body", "names", "targets", "comparisons", "decorators", "params", "items", "bases", "keywords", "values", "parts", "expressions"}
-REBUILD_EXEMPT = {
-    "core_codemods.fix_async_task_instantiation.FixAsyncTaskInstantiation._split_args":
-        "partitions the arguments into (loop, eager_start, others): the first two are returned separately and re-inserted or dropped by the documented edit",
-    "core_codemods.str_concat_in_seq_literal.StrConcatInSeqLiteral._process_elements":
-        "the ConcatenatedString branch appends one element per flattened part (at least two by construction)",
+# confirmed exception, keyed by the (public, registered) class and the *shape* of the loop, not by a private method name:
+REBUILD_EXEMPT_PARTITION = {
+    "core_codemods.fix_async_task_instantiation.FixAsyncTaskInstantiation":
+        "partitions the arguments into (loop, eager_start, others) with a `match` that has no wildcard: the first two are returned separately and "
+        "re-inserted or dropped by the documented edit; the only unmatched shape is a keyword argument literally named `None`, which is not valid Python",
 }
+
+
+def _unroll_inner_loops(stmts):
+    """Inner `for` loops of a rebuild iteration are taken to run at least once: replacing one child by a *sequence* of children is a rewrite of
+    that child (str-concat flattening), not a drop; what the rule looks for is a path that skips the child altogether."""
+    import copy
+
+    class T(ast.NodeTransformer):
+        def visit_For(self, n):
+            self.generic_visit(n)
+            return n.body
+
+        def visit_FunctionDef(self, n):
+            return n
+
+    return [x for st in copy.deepcopy(stmts) for x in (lambda r: r if isinstance(r, list) else [r])(T().visit(st))]
+
+
+def _following(fn_node, loop):
+    """Statements that can run after `loop` inside fn_node (the rest of every enclosing block)."""
+    out = []
+
+    def rec(stmts):
+        for i, st in enumerate(stmts):
+            if st is loop:
+                out.extend(stmts[i + 1:])
+                return True
+            for fld in ("body", "orelse", "finalbody"):
+                sub = getattr(st, fld, None)
+                if isinstance(sub, list) and sub and isinstance(sub[0], ast.stmt) and rec(sub):
+                    out.extend(stmts[i + 1:])
+                    return True
+            for h in getattr(st, "handlers", []) or []:
+                if rec(h.body):
+                    out.extend(stmts[i + 1:])
+                    return True
+            for cs in getattr(st, "cases", []) or []:
+                if rec(cs.body):
+                    out.extend(stmts[i + 1:])
+                    return True
+        return False
+
+    rec(fn_node.body)
+    return out
 
 
 def rule_rebuild_keeps_all(ctx, rep, rule_id="R-REBUILD-KEEPS-ALL"):
@@ -371,11 +415,31 @@ def rule_rebuild_keeps_all(ctx, rep, rule_id="R-REBUILD-KEEPS-ALL"):
                 if not carried:
                     continue
                 n += 1
-                ids = {id(c) for c in apps}
-                fa = FlowAnalysis(lp, lambda c, _i=ids: "EV:app" if id(c) in _i else None, body=lp.body)
-                ends = [e.state for e in fa.exits if e.kind == "end"] + [fa.state_at(s_) for s_ in ast.walk(lp) if isinstance(s_, ast.Continue) and fa.state_at(s_) is not None]
+                body = _unroll_inner_loops(lp.body)
+                # an element stored into a plain variable that is used after the loop (a partition: `loop_arg = arg`) is kept as well
+                after_names = {x.id for st in _following(m.node, lp) for x in ast.walk(st) if isinstance(x, ast.Name) and isinstance(x.ctx, ast.Load)}
+                part_stores = {id(a) for st in body for a in ast.walk(st) if isinstance(a, ast.Assign) and isinstance(a.value, ast.Name) and a.value.id == lv
+                               and len(a.targets) == 1 and isinstance(a.targets[0], ast.Name) and a.targets[0].id in after_names}
+
+                def ev(c, _lv=lv):
+                    if isinstance(c, ast.Call) and isinstance(c.func, ast.Attribute) and c.func.attr == "append" and isinstance(c.func.value, ast.Name):
+                        return "EV:app"
+                    return None
+
+                # partition stores are modelled as appends (rewritten into a marker call)
+                class P(ast.NodeTransformer):
+                    def visit_Assign(self, a):
+                        if id(a) in part_stores:
+                            return ast.copy_location(ast.Expr(value=ast.Call(func=ast.Attribute(value=ast.Name(id="__kept", ctx=ast.Load()), attr="append", ctx=ast.Load()), args=[a.value], keywords=[])), a)
+                        return a
+
+                body = [P().visit(st) for st in body]
+                wrapper = ast.For(target=lp.target, iter=lp.iter, body=body, orelse=[], lineno=lp.lineno, col_offset=lp.col_offset)
+                ast.fix_missing_locations(wrapper)
+                fa = FlowAnalysis(wrapper, ev, body=body)
+                ends = [e.state for e in fa.exits if e.kind == "end"] + [fa.state_at(s_) for st in body for s_ in ast.walk(st) if isinstance(s_, ast.Continue) and fa.state_at(s_) is not None]
                 ok = bool(ends) and all(has_event(s_, "EV:app") for s_ in ends)
-                ex = REBUILD_EXEMPT.get(m.qname)
+                ex = REBUILD_EXEMPT_PARTITION.get(cq) if part_stores else None
                 if not ok and ex:
                     rep.instance(rule_id, m.qname, m.loc(lp), True, detail=f"for {lv} in {unparse(it)[:30]}", exempt=ex)
                     continue
